@@ -7,12 +7,14 @@ import numpy as np
 from harness import comp_filter as F, comp_grid as G
 from vlib import core
 
-PROPS = ["Props/C17.v", "Props/C17grid.v"]
-TRANSLATORS = ["grid"]
+PROPS = ["Props/C17.v", "Props/C17grid.v", "Props/C17src.v"]
+TRANSLATORS = ["grid", "filter"]
 THEOREMS = ["C17_in_box", "C17_feasible", "C17_nodup", "C17_subset", "C17_output_order",
             "C17_fresh_refuted", "C17_log_irrelevant", "C17_fresh_refuted_everywhere",
             # Props/C17grid.v: the model's rounding key IS the source's (gen/Src_grid.v regenerated from constraints_check.py)
-            "C17_rounding_key_is_source", "C17_same_key_iff_source_rows_equal", "C17_same_key_within_half_tol"]
+            "C17_rounding_key_is_source", "C17_same_key_iff_source_rows_equal", "C17_same_key_within_half_tol",
+            # Props/C17src.v: Model/Filter.v's filter_candidates IS the program regenerated from constraints_check.py (gen/Src_filter.v)
+            "C17_filter_is_source", "C17_order_of_steps_is_source", "C17_source_properties", "C17_call_sites_are_source"]
 LEVEL = "proof"
 RULE = ("contraints_check vs Model/Filter.v, output rows compared exactly INCLUDING order. lattice stream: designed "
         "enumeration over {-2..2}^D, D<=2 (D=1: all 156 candidate lists of length<=3 x 26 intervals incl. half-infinite "
@@ -26,7 +28,13 @@ RULE = ("contraints_check vs Model/Filter.v, output rows compared exactly INCLUD
         "rows after rounding / reorders / drops an infeasible row / meets a logged point")
 TRUSTED = [
     "Coq 8.16.1 kernel + vm_compute (case evaluation); no native_compute",
-    "hand-written model Model/Filter.v of constraints_check.py, tied by differential comparison (harness/comp_filter.py)",
+    "hand-written model Model/Filter.v of constraints_check.py, tied by differential comparison (harness/comp_filter.py) AND proved equal, for all inputs, "
+    "to gen/Src_filter.v, which translate/filter.py (fail-closed ast translator; whitelist in its docstring) regenerates from contraints_check on every run "
+    "(C17_filter_is_source, C17_order_of_steps_is_source); the generated program is itself evaluated by vm_compute on every case of the tie against the real function "
+    "(correspondence:filter_source)",
+    "translate/filter.py's reading of NumPy (Model/FilterSrc.v): element-wise operators per coordinate with the (1,D) bound rows broadcast, an infinite bound = None on its own side, "
+    "`A.size > 0` = 'A has a row' (D >= 1), boolean-mask / integer-array indexing, np.unique(axis=0, return_index=True) = first occurrences in lexicographic order, "
+    "np.sort, np.round half-to-even, a float literal is the decimal it spells; `if function_logger is None: raise` is skipped (the logger is always passed)",
     "translate/grid.py regenerates the rounding statements of constraints_check.py (tol = tol_mesh / 2.0; np.round(U / tol) for candidates and log) on every run; "
     "C17_rounding_key_is_source proves Model/Filter.v's key equal to them; the located statements are executed for real and compared exactly (harness/comp_grid.py)",
     "NumPy semantics of np.unique(axis=0, return_index=True) (lexicographic order, first occurrence), np.round (half to even), "
@@ -197,14 +205,23 @@ def tie(ctx, broken):
 
     T["monitor_tags"] = round(time.time() - t0, 1); t0 = time.time()
     lits_int = [F.coq_int_case(c, o) for c, o in zip(cases[:nl], outs[:nl])]
-    ok1, bad1, log1 = core.run_cases("C17_lat", F.REQUIRES, F.INT_TY, F.INT_OK, lits_int, shard=1500, defs=F.DEFS)
     lits_q = [lit(c, o) for c, o in zip(cases[nl:], outs[nl:])]
-    ok2, bad2, log2 = core.run_cases("C17_rnd", F.REQUIRES, F.Q_TY, F.Q_OK, lits_q, shard=350, defs=F.DEFS)
+    src_ok = F.src_generated_ok()
+    sbad = []
+    if src_ok:
+        ok1, bad1, sbad1, log1 = F.run_cases_both("C17_lat", F.INT_TY, F.INT_OK, "ok_int_src", lits_int, shard=1500, defs=F.DEFS + F.SRC_DEFS)
+        ok2, bad2, sbad2, log2 = F.run_cases_both("C17_rnd", F.Q_TY, F.Q_OK, "ok_q_src", lits_q, shard=350, defs=F.DEFS + F.SRC_DEFS)
+        sbad = list(sbad1) + [nl + i for i in sbad2]
+    if not src_ok or not (ok1 and ok2):     # the generated file is missing / does not build: the model alone
+        src_ok = False
+        ok1, bad1, log1 = core.run_cases("C17_lat", F.REQUIRES, F.INT_TY, F.INT_OK, lits_int, shard=1500, defs=F.DEFS)
+        ok2, bad2, log2 = core.run_cases("C17_rnd", F.REQUIRES, F.Q_TY, F.Q_OK, lits_q, shard=350, defs=F.DEFS)
     bad = list(bad1) + [nl + i for i in bad2]
+    SRC_STATE["component"] = (src_ok, sbad, len(cases), set(bad))
     good = ctx.oblige("correspondence:filter:component", "correspondence", ok1 and ok2 and not bad,
                       f"{len(bad)} of {len(cases)} cases differ; " + (log1 + log2)[-500:])
     T["coq_component"] = round(time.time() - t0, 1); t0 = time.time()
-    diff_case = cases[bad[0]] if bad else None
+    diff_case = cases[bad[0]] if bad else (cases[sbad[0]] if sbad else None)
     if not (ok1 and ok2):
         broken.append(("correspondence:filter:component", "case files did not compile: " + (log1 + log2)[-600:]))
 
@@ -220,6 +237,9 @@ def tie(ctx, broken):
     # 3. run level
     run_ev, run_diff = run_level(ctx, broken, seen_keys)
     T["run_level_total"] = round(time.time() - t0, 1); t0 = time.time()
+
+    # 3b. translator validation: the program regenerated from the source, evaluated by Coq on the SAME literals
+    source_tie(ctx, broken)
 
     # 4. known finding: one report carrying the component witness and the run-level corollary
     if reproduced or hits or run_ev.get("calls_handing_on_an_evaluated_point"):
@@ -239,6 +259,52 @@ def tie(ctx, broken):
             report_diff(ctx, diff_case, "component" if bad else "run level")
         else:
             ctx.notes.append("model and code also differ on " + json.dumps(slim(diff_case))[:600])
+
+
+SRC_STATE = {}
+
+
+def source_tie(ctx, broken):
+    comp, run = SRC_STATE.get("component"), SRC_STATE.get("run")
+    evaluated = bool(comp and comp[0] and run and run[0])
+    n = (comp[2] if comp else 0) + (run[2] if run else 0)
+    sb = (list(comp[1]) if comp else []) + (list(run[1]) if run else [])
+    mb = (comp[3] if comp else set()), (run[3] if run else set())
+    only_src = [i for i in (comp[1] if comp else []) if i not in mb[0]] + [i for i in (run[1] if run else []) if i not in mb[1]]
+    detail = (f"{len(sb)} of {n} cases differ between gen/Src_filter.v (src_filter, evaluated by vm_compute) and the real contraints_check"
+              if evaluated else "NOT EVALUATED: gen/Src_filter.v was not generated or does not build (source outside the translator's whitelist)")
+    if not ctx.oblige("correspondence:filter_source", "correspondence", evaluated and not sb, detail):
+        if not evaluated:
+            broken.append(("correspondence:filter_source", "the program regenerated from contraints_check could not be evaluated: " + detail))
+        elif only_src:
+            broken.append(("correspondence:filter_source", f"TRANSLATOR fault: the generated program differs from the real function on {len(only_src)} cases "
+                           "on which the hand-written model agrees with it"))
+        else:
+            broken.append(("correspondence:filter_source", "generated program and hand-written model both differ from the real function on the same cases"))
+    elif (comp and comp[3]) or (run and run[3]):
+        ctx.notes.append("the program regenerated from the source AGREES with the real function where the hand-written model differs: "
+                         "the source has changed, Model/Filter.v no longer describes it")
+    ctx.coverage["source_tie"] = dict(evaluated=evaluated, cases=n, differing=len(sb))
+
+
+def aim():
+    """which stages of contraints_check the current source differs in (from the reference translation) or fails to translate at"""
+    from translate import filter as TF
+    defs, ex = TF.current()
+    if defs is None:
+        msg = str(ex)
+        foc = []
+        for k, words in (("stage1", ("minimum", "maximum", "proj", " > ", " < ", "bounds", "any", "all", "hi", "lo")),
+                         ("stage2", ("unique", "sort")), ("stage3", ("round", "vstack", "len", "tol", "size", "X_max_idx", "slice")),
+                         ("stage4", ("cons", "inverse_transf", "carr", "xarr"))):
+            if any(w in msg for w in words):
+                foc.append(k)
+        return foc or ["stage1", "stage2", "stage3", "stage4"], "translation stopped: " + msg[:300]
+    d = TF.diff(defs)
+    foc = [k.replace("src_", "") for k in d if k.startswith("src_stage") and k[-1].isdigit()]
+    if any(k in ("src_filter", "src_stage_writes") for k in d) or len([k for k in defs if k.startswith("src_stage") and k[-1].isdigit()]) != 4:
+        foc = ["stage1", "stage2", "stage3", "stage4"]
+    return foc, ("definitions differing from the reference translation: " + ", ".join(d) if d else "no difference from the reference translation")
 
 
 def run_level(ctx, broken, seen_keys):
@@ -371,13 +437,19 @@ def run_level(ctx, broken, seen_keys):
     lit_cases = [lit_cases[i] for i in order]
     tc = time.time()
     ctx.coverage["run_level_literal_bytes"] = sum(map(len, lits))
-    ok, bad, log = core.run_cases("C17_run", F.REQUIRES, F.RUN_TY, F.RUN_OK, lits, shard=per, defs=defs)
+    src_ok, sbad = F.src_generated_ok(), []
+    if src_ok:
+        ok, bad, sbad, log = F.run_cases_both("C17_run", F.RUN_TY, F.RUN_OK, "ok_run_src", lits, shard=per, defs=defs + F.SRC_DEFS + F.RUN_SRC_DEFS)
+    if not src_ok or not ok:
+        src_ok = False
+        ok, bad, log = core.run_cases("C17_run", F.REQUIRES, F.RUN_TY, F.RUN_OK, lits, shard=per, defs=defs)
+    SRC_STATE["run"] = (src_ok, sbad, len(lits), set(bad))
     ctx.coverage.setdefault("timing_s", {})["coq_run_level"] = round(time.time() - tc, 1)
     ctx.oblige("correspondence:filter:run-level", "correspondence", ok and not bad,
                f"{len(bad)} of {len(lits)} captured calls differ; " + log[-500:])
     if not ok:
         broken.append(("correspondence:filter:run-level", "run-level case files did not compile: " + log[-600:]))
-    return ev, (lit_cases[bad[0]] if bad else None)
+    return ev, (lit_cases[bad[0]] if bad else (lit_cases[sbad[0]] if sbad else None))
 
 
 # ----------------------------------------------------------------------------- search / replay
@@ -385,6 +457,19 @@ def run_level(ctx, broken, seen_keys):
 def search(ctx, broken):
     """More inputs through the declarative monitor (no Coq): random, table and a different lattice slice."""
     seen_keys = {v["key"] for v in ctx.violations}
+    # cases AIMED at the construct of the source that changed (translator's diff against the reference / where translation stopped)
+    try:
+        focus, why = aim()
+    except Exception as ex:    # noqa: BLE001
+        focus, why = [], f"aim failed: {ex!r}"
+    ctx.notes.append(f"search aimed at {focus}: {why}")
+    for i in range((6000 if ctx.quick else 30000) if focus else 0):
+        c = F.gen_aimed(ctx.rng, i, focus[i % len(focus)])
+        o = F.run_real(c)
+        m = F.monitor(c, o, F.violated_fn(c))
+        if m:
+            report_monitor(ctx, c, m[0][0], f"[search aimed at {focus[i % len(focus)]}; {why[:200]}] " + m[0][1], seen_keys)
+            return True
     gens = [F.random_case] * 4 + [F.table_case]
     for i in range(12000 if ctx.quick else 60000):
         c = gens[i % len(gens)](ctx.rng, i)
